@@ -26,6 +26,9 @@ EXPLANATION = (
     'pad(n, blockshape[k]), shape tuple element and block tile [v*s:(v+1)*s] uses the component of its own position. '
     'C01.6 emission order = address order (x outer, z inner around the per-block put). C01.7 pad() = m*ceil(n/m) on '
     'both residue classes (digit algebra). C01.8 every conversion route reaches the single run_conversion_loop.')
+EXPLANATION += (
+    " ADDED: C01.4 (second half): the self-test of the reduced-I/O reader compares read_line(0) exactly (array_equal) with the source's inline accessor - the access path of the segyio fallback - not with traces in file order. C01.7 evaluates the body of pad() over the two residue classes of n % m whatever its spelling. C01.9: in every producer the per-group real count (if/else, conditional expression or min()) equals min(bs, n - g*bs) in the four cases {n % bs zero / non-zero} x {last / earlier group}, decided by the signs of polynomial differences over non-negative atoms (n = bs*q + r); the plane read on the padding side of `i < count` is the last real plane of the group."
+)
 ASSUMPTIONS = [
     'ZFP fixed-rate coding is deterministic and block-local; write_header=False adds nothing to the stream',
     'np.pad(mode=\'edge\') replicates the last sample; numpy slice assignment broadcasts as documented',
